@@ -2,6 +2,7 @@ package rules
 
 import (
 	"fmt"
+	"go/token"
 	"strings"
 	"time"
 
@@ -161,19 +162,35 @@ func runC17(c *an.Check) {
 	}
 	c.AtLeast("C17.R1", "negotiation waiting states", nNeg, 3)
 
-	// R2 constants
+	// R2 constants. A duration / expiry that is a parameter of an arming helper is
+	// resolved at the helper's callers; one instance per arming chain.
 	sites := findCallSites(w, fxAddTimeout)
-	c.AtLeast("C17.R2", "addNewTimeOut call sites", len(sites), 3)
+	nArm := 0
 	for _, site := range sites {
-		args := site.Common().Args
-		cons := w.FuncName(site.Parent()) + " timeout-duration"
-		if len(args) < 3 {
-			c.Unknown("C17.R2", cons, w.Pos(site.Pos()), "unexpected argument list")
+		if isDummy(w, site.Parent()) {
 			continue
 		}
-		d, ok := an.ConstInt(args[1])
-		c.Decide(ok && time.Duration(d) == 10*time.Minute, "C17.R2", cons, w.Pos(site.Pos()), "10m0s", fmt.Sprintf("negotiation timeout is not the constant 10 minutes (constant=%v value=%v)", ok, time.Duration(d)))
+		args := site.Common().Args
+		if len(args) < 3 {
+			nArm++
+			c.Unknown("C17.R2", w.FuncName(site.Parent())+" timeout-duration", w.Pos(site.Pos()), "unexpected argument list")
+			continue
+		}
+		for _, ctx := range c17Contexts(w, site, []ssa.Value{args[1]}) {
+			nArm++
+			cons := w.FuncName(ctx.top(site)) + " timeout-duration"
+			d, st := c17Resolve(args[1], ctx.stack)
+			switch {
+			case st != c17Const:
+				c.Unknown("C17.R2", cons, w.Pos(ctx.pos(site)), "the armed duration is not a compile-time constant at this arming chain (variable, field or unresolved parameter): cannot decide that it is 10 minutes")
+			case time.Duration(d) == 10*time.Minute:
+				c.OK("C17.R2", cons, w.Pos(ctx.pos(site)), "10m0s")
+			default:
+				c.Bad("C17.R2", cons, w.Pos(ctx.pos(site)), fmt.Sprintf("negotiation timeout is not the constant 10 minutes (value=%v)", time.Duration(d)))
+			}
+		}
 	}
+	c.AtLeast("C17.R2", "timeout arming chains (addNewTimeOut call site x caller binding its duration)", nArm, 3)
 	// fee invoice expiry: GetPayreq calls whose invoice type argument is INVOICE_FEE
 	feeT, okFee := constOf(w, "swap", "INVOICE_FEE")
 	if !okFee {
@@ -189,15 +206,143 @@ func runC17(c *an.Check) {
 		if len(args) != 7 {
 			continue
 		}
-		it, ok := an.ConstInt(args[4])
-		if !ok || fmt.Sprint(it) != feeT.String() {
-			continue
+		for _, ctx := range c17Contexts(w, site, []ssa.Value{args[4], args[5]}) {
+			it, st := c17Resolve(args[4], ctx.stack)
+			if st != c17Const || fmt.Sprint(it) != feeT.String() {
+				continue
+			}
+			nFee++
+			cons := w.FuncName(ctx.top(site)) + " fee-invoice-expiry"
+			exp, st := c17Resolve(args[5], ctx.stack)
+			switch {
+			case st != c17Const:
+				c.Unknown("C17.R2", cons, w.Pos(ctx.pos(site)), "the fee invoice expiry is not a compile-time constant here: cannot decide that it is 600 s")
+			case exp == 600:
+				c.OK("C17.R2", cons, w.Pos(ctx.pos(site)), "600 s")
+			default:
+				c.Bad("C17.R2", cons, w.Pos(ctx.pos(site)), fmt.Sprintf("fee invoice expiry is not the constant 600 s (got %v)", exp))
+			}
 		}
-		nFee++
-		exp, ok := an.ConstInt(args[5])
-		c.Decide(ok && exp == 600, "C17.R2", w.FuncName(site.Parent())+" fee-invoice-expiry", w.Pos(site.Pos()), "600 s", fmt.Sprintf("fee invoice expiry is not the constant 600 s (got %v, constant=%v)", exp, ok))
 	}
 	c.AtLeast("C17.R2", "fee invoice creation sites", nFee, 1)
+}
+
+// ---- constants through helper parameters -------------------------------------------------
+
+const (
+	c17Const      = iota // resolved to a constant
+	c17NeedCaller        // a parameter of the outermost function of the stack
+	c17Opaque            // anything else
+)
+
+// c17Ctx is a static call chain leading to a site: stack[0] is the call of the
+// site's function, stack[1] the call of that caller, ...
+type c17Ctx struct{ stack []ssa.CallInstruction }
+
+func (x c17Ctx) top(site ssa.CallInstruction) *ssa.Function {
+	if len(x.stack) == 0 {
+		return site.Parent()
+	}
+	return x.stack[len(x.stack)-1].Parent()
+}
+
+func (x c17Ctx) pos(site ssa.CallInstruction) token.Pos {
+	if len(x.stack) == 0 {
+		return site.Pos()
+	}
+	return x.stack[len(x.stack)-1].Pos()
+}
+
+// c17Resolve evaluates an integer value under a call chain, binding parameters
+// to the arguments of the calls on the stack.
+func c17Resolve(v ssa.Value, stack []ssa.CallInstruction) (int64, int) {
+	for {
+		switch x := v.(type) {
+		case *ssa.Convert:
+			v = x.X
+			continue
+		case *ssa.ChangeType:
+			v = x.X
+			continue
+		}
+		break
+	}
+	if k, ok := an.ConstInt(v); ok {
+		return k, c17Const
+	}
+	if p, ok := v.(*ssa.Parameter); ok {
+		if len(stack) == 0 {
+			return 0, c17NeedCaller
+		}
+		call := stack[0]
+		if call.Common().StaticCallee() != p.Parent() {
+			return 0, c17Opaque
+		}
+		for i, q := range p.Parent().Params {
+			if q == p && i < len(call.Common().Args) {
+				return c17Resolve(call.Common().Args[i], stack[1:])
+			}
+		}
+		return 0, c17Opaque
+	}
+	if phi, ok := v.(*ssa.Phi); ok {
+		// all incoming values must agree
+		var val int64
+		for i, e := range phi.Edges {
+			k, st := c17Resolve(e, stack)
+			if st != c17Const || (i > 0 && k != val) {
+				if st == c17NeedCaller {
+					return 0, c17NeedCaller
+				}
+				return 0, c17Opaque
+			}
+			val = k
+		}
+		return val, c17Const
+	}
+	return 0, c17Opaque
+}
+
+// c17Contexts enumerates the call chains needed to resolve vals at site: the
+// empty chain when no value is a parameter, otherwise one chain per production
+// caller (to depth 3).
+func c17Contexts(w *an.World, site ssa.CallInstruction, vals []ssa.Value) []c17Ctx {
+	var out []c17Ctx
+	var expand func(stack []ssa.CallInstruction, depth int)
+	expand = func(stack []ssa.CallInstruction, depth int) {
+		need := false
+		for _, v := range vals {
+			if _, st := c17Resolve(v, stack); st == c17NeedCaller {
+				need = true
+			}
+		}
+		ctx := c17Ctx{stack: append([]ssa.CallInstruction{}, stack...)}
+		if !need || depth >= 3 {
+			out = append(out, ctx)
+			return
+		}
+		top := ctx.top(site)
+		var callers []ssa.CallInstruction
+		for _, g := range prodFuncs(w) {
+			if isDummy(w, g) {
+				continue
+			}
+			for _, gc := range an.Calls(g) {
+				if gc.Common().StaticCallee() == top {
+					callers = append(callers, gc)
+				}
+			}
+		}
+		if len(callers) == 0 {
+			out = append(out, ctx)
+			return
+		}
+		for _, gc := range callers {
+			expand(append(append([]ssa.CallInstruction{}, stack...), gc), depth+1)
+		}
+	}
+	expand(nil, 0)
+	return out
 }
 
 // c17ReachAvoiding: is `to` reachable from `from` in the table without passing
